@@ -84,6 +84,7 @@ class ShuffleBase(Expr):
     }
     _is_length_preserving = True
     _filter_passthrough = True
+    _filter_passthrough_reorders_rows = True
 
     def __str__(self):
         return f"Shuffle({self._name[-7:]})"
@@ -738,6 +739,7 @@ class AssignPartitioningIndex(Blockwise):
 
 class BaseSetIndexSortValues(Expr):
     _is_length_preserving = True
+    _filter_passthrough_reorders_rows = True
 
     def _divisions(self):
         if "user_divisions" in self._parameters and self.user_divisions is not None:
